@@ -348,7 +348,82 @@ func forwardAliases(v ssa.Value) map[ssa.Value]bool {
 // (ok) and on which "v != nil" holds (bad), from If instructions testing v or a phi of it against nil.
 // For a phi alias the edge only proves the phi is nil, which — if v flowed in — covers v's path.
 func nilTestEdges(v ssa.Value) (ok []Edge, bad []Edge) {
-	for a := range forwardAliases(v) {
+	if v == nil {
+		return nil, nil
+	}
+	aliases := forwardAliases(v)
+	// the value may be spilled into a local slot (named result, captured variable) and re-loaded in
+	// the same block before the next store: those loads are the same value
+	for a := range aliases {
+		if a.Referrers() == nil {
+			continue
+		}
+		for _, r := range *a.Referrers() {
+			st, isSt := r.(*ssa.Store)
+			if !isSt || st.Val != a {
+				continue
+			}
+			slot, isAlloc := st.Addr.(*ssa.Alloc)
+			if !isAlloc {
+				continue
+			}
+			b := st.Block()
+			after := false
+			for _, in := range b.Instrs {
+				if in == ssa.Instruction(st) {
+					after = true
+					continue
+				}
+				if !after {
+					continue
+				}
+				if s2, ok := in.(*ssa.Store); ok && s2.Addr == slot {
+					break
+				}
+				if ld, ok := in.(*ssa.UnOp); ok && ld.Op == token.MUL && ld.X == slot {
+					aliases[ld] = true
+				}
+			}
+		}
+	}
+	// nil-implying predicates: ok := f(…, wrap(err)) where f returns true only if that argument is nil
+	for a := range aliases {
+		if a.Referrers() == nil {
+			continue
+		}
+		for _, r := range *a.Referrers() {
+			c, isCall := r.(*ssa.Call)
+			if !isCall {
+				continue
+			}
+			// through a nil-preserving wrapper first
+			if inner, okw := nilPreservingArg(c); okw && inner == a {
+				aliases[c] = true
+			}
+		}
+	}
+	for a := range aliases {
+		if a.Referrers() == nil {
+			continue
+		}
+		for _, r := range *a.Referrers() {
+			c, isCall := r.(*ssa.Call)
+			if !isCall {
+				continue
+			}
+			f, _ := calleeOf(c.Common())
+			k := nilImplyingPredicate(f)
+			if k < 0 || k >= len(c.Call.Args) || c.Call.Args[k] != a {
+				continue
+			}
+			for _, e := range condEdges(c) {
+				if e.truth {
+					ok = append(ok, e.Edge)
+				}
+			}
+		}
+	}
+	for a := range aliases {
 		refs := a.Referrers()
 		if refs == nil {
 			continue
@@ -731,4 +806,55 @@ func retPos(rp RetPath) IPos {
 		return IPos{rp.Pred, len(rp.Pred.Instrs) - 1}
 	}
 	return posOf(rp.Ret)
+}
+
+// nilImplyingPredicate: f returns bool and every return is the constant false or (param_k == nil):
+// a true result implies the k-th argument was nil. Returns k or -1.
+func nilImplyingPredicate(f *ssa.Function) int {
+	if f == nil || !inHelm(f) || len(f.Blocks) == 0 || f.Signature.Results().Len() != 1 {
+		return -1
+	}
+	if b, ok := f.Signature.Results().At(0).Type().Underlying().(*types.Basic); !ok || b.Kind() != types.Bool {
+		return -1
+	}
+	k := -1
+	for _, b := range f.Blocks {
+		if len(b.Instrs) == 0 {
+			continue
+		}
+		ret, ok := b.Instrs[len(b.Instrs)-1].(*ssa.Return)
+		if !ok {
+			continue
+		}
+		v := ret.Results[0]
+		if cb, isC := constBool(v); isC {
+			if cb {
+				return -1
+			}
+			continue
+		}
+		bo, isBo := v.(*ssa.BinOp)
+		if !isBo || bo.Op != token.EQL {
+			return -1
+		}
+		var p ssa.Value
+		if isNilConst(bo.Y) {
+			p = bo.X
+		} else if isNilConst(bo.X) {
+			p = bo.Y
+		}
+		pp, isP := p.(*ssa.Parameter)
+		if !isP {
+			return -1
+		}
+		for i, q := range f.Params {
+			if q == pp {
+				if k >= 0 && k != i {
+					return -1
+				}
+				k = i
+			}
+		}
+	}
+	return k
 }
